@@ -1,6 +1,7 @@
 package main
 
 import (
+	"path"
 	"bytes"
 	"fmt"
 	"math/rand"
@@ -157,6 +158,14 @@ func init() {
 		}
 		b, _ := os.ReadFile(tmp.Name())
 		return ok(b)
+	}
+	implOps["path.clean"] = func(a [][]byte) Result { return okS(path.Clean(string(a[0]))) }
+	implOps["path.join"] = func(a [][]byte) Result {
+		var es []string
+		for _, x := range a {
+			es = append(es, string(x))
+		}
+		return okS(path.Join(es...))
 	}
 	implOps["semver.valid"] = func(a [][]byte) Result {
 		if err := cmd.VerifValidateSemver(string(a[0])); err != nil {
